@@ -27,5 +27,5 @@ for p in $props; do
   if [ $kind != refactors ]; then for f in selftest/mutants/$p/*.patch; do [ -f "$f" ] && echo "mutant $p $f"; done; fi
   if [ $kind != mutants ]; then for f in selftest/refactors/$p/*.patch; do [ -f "$f" ] && echo "refactor $p $f"; done; fi
 done
-} | xargs -P 3 -L 1 bash -c 'one $0 $1 $2' | tee .work/selftest.last
+} | xargs -P ${SELFTEST_P:-3} -L 1 bash -c 'one $0 $1 $2' | tee .work/selftest.last
 ! grep -q "^MISS\|^FALSE-ALARM\|^SELFTEST-BROKEN" .work/selftest.last
